@@ -340,6 +340,8 @@ def ancestor_order(run):
             for r in (1, 2):
                 opts += list(itertools.permutations(earlier, r))
             opts += [o + ('object',) for o in list(opts)]
+            # builtin bases other than object, before and after the source bases
+            opts += [('dict',) + o for o in list(opts)[:3]] + [o + ('Exception',) for o in list(opts)[:3]] + [('ValueError',) + o for o in list(opts)[1:3]]
             options[n] = opts
         import random
         rnd = random.Random(1234)
@@ -350,7 +352,8 @@ def ancestor_order(run):
         all5 = [tuple(rnd.choice(options[n]) for n in names) for _ in range(800)]
         bad = None
         for combo in combos + all5:
-            real = {'object': object}
+            real = {'object': object, 'dict': dict, 'Exception': Exception, 'ValueError': ValueError}
+            runtime = [object, dict, Exception, ValueError, BaseException]
             ok = True
             for n, bases in zip(names, combo):
                 try:
@@ -372,17 +375,21 @@ def ancestor_order(run):
                 o = loader.bare_instance(CO)
                 o.scope = ('scope-of', n)
                 o._own = {'table-of': n}
-                o.__dict__['bases'] = [objs[b] if b != 'object' else Nm.RuntimeName('object', object) for b in bases]
+                o.__dict__['bases'] = [objs[b] if b in objs else Nm.RuntimeName(b, real[b]) for b in bases]
                 return o
             for n, bases in zip(names, combo):
                 objs[n] = mk(n, bases)
             top = names[len(combo) - 1]
             got = []
             for t in objs[top]._ancestor_tables:
-                got.append(t.get('table-of', 'object') if 'table-of' in t else 'object')
-            want = [c.__name__ for c in real[top].__mro__[1:] if c is not object or any('object' in b for b in combo)]
-            if 'object' in want and 'object' not in got:
-                want = [w for w in want if w != 'object']
+                if 'table-of' in t:
+                    got.append(t['table-of'])
+                else:
+                    ks = [k.__name__ for k in runtime if set(t) == set(vars(k)) and all(getattr(t[x], 'value', None) is vars(k)[x] for x in vars(k))]
+                    got.append(ks[0] if ks else '?')
+            want = [c.__name__ for c in real[top].__mro__[1:]]
+            if 'object' not in got:
+                want = [w for w in want if w != 'object']       # object is there only when some class names a runtime base
             checked += 1
             if got != want and bad is None:
                 bad = (combo, got, want)
@@ -589,7 +596,10 @@ def assigns_grouping(run, twin=None):
             class Self(S.SourceScope):
                 pass
             s = loader.bare_instance(Self)
-            s._attr_assigns = AttrAssigns(('scope', attr, node.value))
+            # the scope the assignment stands in: a real method scope in a real class scope (whatever the code asks of it)
+            cls_scope = loader.bare_instance(S.ClassScope, parent=s, top=s, name='K')
+            meth_scope = loader.bare_instance(S.FuncScope, parent=cls_scope, top=s, name='m')
+            s._attr_assigns = AttrAssigns((meth_scope, attr, node.value))
             # the displays hook turns BOTH `{}` into proxies; the inner per-object dict must be a real dict
             made = []
 
